@@ -205,4 +205,22 @@ theorem dna_parametrisation (kbp um T : ℝ) :
   · simp only [dnaKT, kB]; norm_num; ring
   · simp only [dnaKT, kB]; norm_num [abs_lt]
 
+
+/-! ## finding F9: the inversion's initial guess is the constant 1.0 -/
+
+/-- Witness for finding F9 (model of the code as it is): inverting the Marko–Siggia force model of a
+    0.5 µm tether over its physical range `[0, 0.45]` µm — on which it is increasing — is refused
+    (`ValueError`), because SciPy is started from the hard-coded guess `1.0`, outside the limits. -/
+theorem F9_witness :
+    (M.inv (M.base Kind.msF "m") (0 : ℝ) 0.45 false).check [(40 : ℝ), 0.5, 4.11] = some Err.value := by
+  simp only [M.check, Kind.check, anyLe0, guessOutside, RealLike.le, RealLike.lt, List.any_cons,
+    List.any_nil]
+  norm_num
+
+/-- …whereas limits that contain `1.0` pass the same guard. -/
+example : (M.inv (M.base Kind.msF "m") (0 : ℝ) 1.45 false).check [(40 : ℝ), 1.5, 4.11] = none := by
+  simp only [M.check, Kind.check, anyLe0, guessOutside, RealLike.le, RealLike.lt, List.any_cons,
+    List.any_nil]
+  norm_num
+
 end Verif.C12
